@@ -20,6 +20,11 @@ def main():
         fast = "--fast" in sys.argv
         if fast:
             cmd += ["--deselect", "tests/test_setup.py", "--ignore", "tests/test_setup.py"]
+        # tests/test_setup.py binds fixed ports 3868-3870: run in a private network namespace when possible so that
+        # concurrent runs (e.g. in scratch worktrees) cannot collide
+        import shlex, shutil
+        if shutil.which("unshare") and subprocess.run(["unshare", "-n", "true"], capture_output=True).returncode == 0:
+            cmd = ["unshare", "-n", "sh", "-c", "ip link set lo up 2>/dev/null; exec " + " ".join(shlex.quote(c) for c in cmd)]
         p = subprocess.run(cmd, cwd=os.environ.get("VERIF_BASELINE_CWD", "/repo"), env=env, stdout=subprocess.PIPE, stderr=subprocess.STDOUT, text=True)
         tail = "\n".join(p.stdout.splitlines()[-5:])
         passed = set()
